@@ -86,4 +86,21 @@ def LLst.get (l : LLst) (i : Int) : R :=
 /-- `LIST.get_size`: the number of slots that are not `None` -/
 def LLst.size (l : LLst) : Int := (l.cells.length : Int) - (l.cells.count none : Int)
 
+/-- python `==` on the simple values of the harness: INTEGER (tag 0), REAL (tag 2, whole numbers) and BOOLEAN (tag 3,
+`False`/`True` = 0/1) compare by number across types; everything else only within its own type -/
+def pyEq (x y : Val) : Bool :=
+  let num : Val → Option Nat := fun z => match z.ty with
+    | .simple 0 => some z.v | .simple 2 => some z.v | .simple 3 => some (z.v % 2) | _ => none
+  match num x, num y with
+  | some a, some b => a == b
+  | _, _ => x == y
+
+/-- `SET.add` before fixes/C19-6 on a bounded set, with python's `in`: a full set takes the membership shortcut before the
+type check -/
+def setAddPy (s : PSet) (h : Int) (x : Val) : PSet × R :=
+  if decide ((s.cells.length : Int) = h) then
+    (if ¬ (s.cells.any (pyEq x)) then (s, .raised .assertion) else (s, .ok))
+  else if x.ty ≠ s.base then (s, .raised .type)
+  else ({ s with cells := pySetAdd s.cells x }, .ok)
+
 end StepModel.PyAgg.Legacy
